@@ -199,6 +199,7 @@ InferredType TypeInferenceEngine::infer_type(const ASTNode *node) {
         return InferredType(TYPE_INT, "int");
 
     case ASTNodeType::AST_STRING_LITERAL:
+    case ASTNodeType::AST_INTERPOLATED_STRING:
         return InferredType(TYPE_STRING, "string");
 
     case ASTNodeType::AST_ARRAY_LITERAL: {
